@@ -176,6 +176,10 @@ func (c *c04Ctx) checkAccept(f c04File, fromEncode bool) (bool, error) {
 	if fromEncode && ic != 0 {
 		r.specFail("encode_integrity_fail", fmt.Sprintf("CheckIntegrity returns %s on the %d bytes Encode wrote (%s)", className(ic), len(f.Data), f.Name), rep)
 	}
+	if (dc == 2) != (ic == 2) && !(dc == 1 && ic == 2) {
+		// an IntegrityError from Decode is a CRC verdict: CheckIntegrity must return it too
+		r.specFail("integrity_verdicts_disagree", fmt.Sprintf("CRC verdicts disagree on %s %s (%d bytes): Decode %s, CheckIntegrity %s", f.Origin, f.Name, len(f.Data), className(dc), className(ic)), rep)
+	}
 	if ic2 != ic || dc2 != dc {
 		r.specFail("schedule_dependent", fmt.Sprintf("verdicts depend on the chunk schedule: Decode %s/%s CheckIntegrity %s/%s", className(dc), className(dc2), className(ic), className(ic2)), rep)
 	}
@@ -224,6 +228,9 @@ func (c *c04Ctx) implBurst(f c04File, b c04Burst, e []byte, sched []int) (dc, ic
 	if dp != "" || ip != "" {
 		r.specFail("burst_panic", fmt.Sprintf("panic on a corrupted file (bit %d pattern %#x of %s): %s%s", b.off, b.p, f.Name, dp, ip), rep())
 		return
+	}
+	if dc == 2 && ic != 2 {
+		r.specFail("integrity_verdicts_disagree", fmt.Sprintf("CRC verdicts disagree on a corrupted file (bit %d, pattern %#x of %s): Decode IntegrityError, CheckIntegrity %s", b.off, b.p, f.Name, className(ic)), rep())
 	}
 	if dc == 0 {
 		r.specFail("burst_undetected_decode", fmt.Sprintf("Decode returns nil after corrupting bits %d.. with pattern %#x (LSB-first) of %s %s (%d bytes)", b.off, b.p, f.Origin, f.Name, len(f.Data)), rep())
@@ -718,6 +725,26 @@ func runC04(args []string) int {
 			}
 		}
 	}
+	var large []c04File
+	nLarge := 12
+	if thorough {
+		nLarge = 300
+	}
+	for tries := 0; len(large) < nLarge*o.boost && tries < 60*nLarge*o.boost; tries++ {
+		// streams crossing the decoder's 4096-byte buffer (the generator's rare zero-size fields make long streams fail more often: retry)
+		f := c04SmallStream(c.rg, st, 300+c.rg.intn(900))
+		if dc, _ := c04Decode(f.Data, nil); dc != 0 || len(f.Data) < 4200 {
+			continue
+		}
+		ok, err := c.checkAccept(f, false)
+		if err != nil {
+			return fail(err)
+		}
+		if ok {
+			r.Hist["valid_len_"+bucket(len(f.Data))]++
+			large = append(large, f)
+		}
+	}
 	for i := 0; i < nEnc; i++ {
 		f, ok := c04Encoded(c.rg, st, 3)
 		if !ok {
@@ -827,6 +854,12 @@ func runC04(args []string) int {
 		f := medium[i]
 		r.Hist["burst_file_medium"]++
 		if err := c.runBursts(f, sampleBursts(f, perMedium), 6, 10); err != nil {
+			return fail(err)
+		}
+	}
+	for _, f := range large {
+		r.Hist["burst_file_large"]++
+		if err := c.runBursts(f, sampleBursts(f, perMedium), 40, 5); err != nil {
 			return fail(err)
 		}
 	}
